@@ -186,7 +186,11 @@ pub fn run_case(prop: &str, tapes: &mut Tapes) -> Result<CaseResult, HarnessErro
 
     macro_rules! run {
         ($opts:expr) => {{
-            let e = exec(&w, $opts, sched);
+            let mut o: ExecOpts = $opts;
+            // Bounded liveness: with a finite data source the engine must finish within a
+            // number of adapter events proportional to the work the model had to do.
+            o.event_cap = 400 * model.steps + 50_000;
+            let e = exec(&w, o, sched);
             sched = e.sched.clone();
             harness_check(&e)?;
             cx.absorb(&e);
@@ -269,7 +273,7 @@ pub fn run_case(prop: &str, tapes: &mut Tapes) -> Result<CaseResult, HarnessErro
                 // F7: several live result iterators on one adapter.
                 let cfg = if sched.draw(2) == 1 { SchedCfg::draw(&mut sched, false) } else { SchedCfg::lazy() };
                 let n_streams = 2 + sched.draw(2) as usize;
-                let io = exec_interleaved(&w, cfg, sched, n_streams, 600_000);
+                let io = exec_interleaved(&w, cfg, sched, n_streams, (400 * model.steps + 50_000) * n_streams as u64);
                 sched = io.sched.clone();
                 if let Ending::HarnessBug(m) = &io.ending {
                     return Err(HarnessError(format!("harness self-check: {m}")));
@@ -478,7 +482,7 @@ pub fn run_case(prop: &str, tapes: &mut Tapes) -> Result<CaseResult, HarnessErro
                 }
                 if prop == "C09" {
                     let cfg = SchedCfg::draw(&mut sched, true);
-                    let io = exec_interleaved(&w, cfg, sched, 2, 600_000);
+                    let io = exec_interleaved(&w, cfg, sched, 2, (400 * model.steps + 50_000) * 2);
                     sched = io.sched.clone();
                     if let Ending::HarnessBug(m) = &io.ending {
                         return Err(HarnessError(format!("harness self-check: {m}")));
